@@ -105,6 +105,13 @@ def alphabet(tier):
         for v in vals:
             for ef in (False, True):
                 S.append(['S', s, v, ef])
+    if tier == 'quick':
+        # the later drafts for the top-level schemas in the quick tier as well (the bundled schemas declare draft-04: a draft-06/07
+        # class disagrees with it on some of them, so an answer computed for one class and served for another shows)
+        for s in schemas:
+            for v in VALIDATORS[2:]:
+                for ef in (False, True):
+                    S.append(['S', s, v, ef])
     V = []
     expect = {}
     stems = [os.path.basename(s)[:-5] for s in schemas if 'metaschema' not in s]
